@@ -5,6 +5,8 @@ import (
 	"crypto/sha1"
 	"crypto/sha256"
 	"crypto/sha512"
+	"encoding/base64"
+	"encoding/hex"
 	"errors"
 	"fmt"
 	"hash"
@@ -125,6 +127,11 @@ func TestC13(t *testing.T) {
 			run(d("empty"), paths[fn], mk(), []byte{}, false, "nochecksum")
 			run(d("nil"), paths[fn], mk(), nil, false, "nochecksum")
 			run(d("all zeros"), paths[fn], mk(), make([]byte, len(digest)), false, "mismatch")
+			// textual renderings of the digest are other byte strings than the digest
+			run(d("hex text of the digest (lower case)"), paths[fn], mk(), []byte(hex.EncodeToString(digest)), false, "mismatch")
+			run(d("hex text of the digest (upper case)"), paths[fn], mk(), []byte(strings.ToUpper(hex.EncodeToString(digest))), false, "mismatch")
+			run(d("base64 text of the digest"), paths[fn], mk(), []byte(base64.StdEncoding.EncodeToString(digest)), false, "mismatch")
+			run(d("digest followed by its hex text"), paths[fn], mk(), append(append([]byte(nil), digest...), hex.EncodeToString(digest)...), false, "mismatch")
 			other := mk()
 			other.Write(files["plus1"])
 			if fn != "plus1" {
